@@ -11,7 +11,7 @@
      AUTO with limit <> 0: count n + p n <= limit for every node that received >= 1. *)
 From Coq Require Import String ZArith List Permutation Sorted.
 From Verif Require Import Base.GoInt Base.GoSort Base.GoSortSpec Strategy.Model Strategy.ProofsBase
-  Strategy.ProofsSort Strategy.Proofs Strategy.ProofsOk Strategy.ProofsOld Strategy.Statements Strategy.Glue Strategy.ProofsGlue.
+  Strategy.ProofsSort Strategy.Proofs Strategy.ProofsOk Strategy.ProofsOld Strategy.Statements Strategy.Glue Strategy.ProofsGlue Strategy.ProofsProj.
 Local Open Scope Z_scope.
 
 (* full statement, all five strategies, all tables / counts / limits / totals *)
@@ -81,3 +81,33 @@ Theorem C01_glue : forall caps order status need limit total,
   C01_spec s need limit (glue_infos order status) p.
 Proof. exact glue_C01. Qed.
 Print Assumptions C01_glue.
+
+(* The comparison "modulo ties" the correspondence check uses for slices longer
+   than 12 (unstable pdqsort) is well defined: any two sorted permutations give the
+   same multiset of projected tuples (attributes the strategy reads, plan entry). *)
+Theorem C01_each_projection_invariant : forall infos s1 s2 need limit,
+  valid_infos infos -> Permutation infos s1 -> Permutation infos s2 ->
+  Sorted (ngt each_less) s1 -> Sorted (ngt each_less) s2 -> 0 <= limit ->
+  forall p1 p2, each_from s1 need (each_limit infos limit) = Ok p1 ->
+  each_from s2 need (each_limit infos limit) = Ok p2 ->
+  Permutation (map (proj Each p1) infos) (map (proj Each p2) infos).
+Proof. exact each_proj_invariant. Qed.
+Print Assumptions C01_each_projection_invariant.
+
+Theorem C01_fill_projection_invariant : forall infos s1 s2 need limit,
+  valid_infos infos -> Permutation infos s1 -> Permutation infos s2 ->
+  Sorted (ngt fill_less) s1 -> Sorted (ngt fill_less) s2 -> 0 <= limit ->
+  forall r1 r2 p1 p2, fill_from s1 need (each_limit infos limit) = r1 -> is_plan r1 p1 ->
+  fill_from s2 need (each_limit infos limit) = r2 -> is_plan r2 p2 ->
+  Permutation (map (proj Fill p1) infos) (map (proj Fill p2) infos).
+Proof. exact fill_proj_invariant. Qed.
+Print Assumptions C01_fill_projection_invariant.
+
+Theorem C01_drained_projection_invariant : forall infos s1 s2 need total,
+  valid_infos infos -> (forall x, In x infos -> GoFloat.f_finite (usage x) = true) ->
+  Permutation infos s1 -> Permutation infos s2 ->
+  Sorted (ngt drained_less) s1 -> Sorted (ngt drained_less) s2 -> 0 < need ->
+  forall p1 p2, drained_from s1 need total = Ok p1 -> drained_from s2 need total = Ok p2 ->
+  Permutation (map (proj Drained p1) infos) (map (proj Drained p2) infos).
+Proof. exact drained_proj_invariant. Qed.
+Print Assumptions C01_drained_projection_invariant.
